@@ -657,3 +657,37 @@ def sources_plumbing():
                                  detail=repr(calls)[:200], witness=repr(given)))
     return obs
 
+
+
+@scenario("macros:is-macro-name", ME + ".is_macro_name", ["C17", "C19", "C13"],
+          doc="the predicate every undefined-macro check rests on: a text is a macro reference iff it starts with '@' -- whatever follows")
+def is_macro_name_contract():
+    ensure()
+    obs: List[Ob] = []
+    func = ME + ".is_macro_name"
+    REST = "[a-zA-Z0-9_%$.+*@ -]*"
+    cases = {
+        # every text '@' + rest is a reference: identifiers, but also names with '-', '.', a leading digit, blanks, nothing at all
+        "at-any": (lambda: lit("@") + var("rest", REST), True),
+        "at-ident": (lambda: lit("@") + var("id", "[A-Za-z_][A-Za-z0-9_]*"), True),
+        "at-odd": (lambda: lit("@") + var("a", "[a-z0-9]+") + var("sep", "[-.+ ]") + var("b", "[a-z0-9]*"), True),
+        "at-digit": (lambda: lit("@") + var("d", "[0-9]") + var("b", "[a-z0-9_]*"), True),
+        "at-alone": (lambda: lit("@"), True),
+        # everything else is not: '@' further inside, the empty text
+        "no-at-first": (lambda: var("c", "[a-zA-Z0-9_%$.+* -]") + var("rest", REST), False),
+        "empty": (lambda: lit(""), False),
+    }
+    for cid, (mk, want) in cases.items():
+        try:
+            run = sym_run(lambda mk=mk: J.mexp.MacroExpander.is_macro_name(mk()))
+        except Unsupported as e:
+            obs.append(simple_ob(f"is_macro_name:{cid}:RUN", func, "RUN", "symbolic execution completes", None, ["C17", "C19"], detail=f"unsupported: {e}"))
+            continue
+        if not run.paths:
+            obs.append(simple_ob(f"is_macro_name:{cid}:RUN", func, "RUN", "at least one path", None, ["C17", "C19"], detail="no path"))
+        for i, p in enumerate(run.paths):
+            ok = p.kind == "ret" and p.value is want
+            obs.append(simple_ob(f"is_macro_name:{cid}:p{i}:POST", func, "POST",
+                                 f"[{cid}] is_macro_name(text) is {want} for every such text (a reference is whatever starts with '@')",
+                                 ok, ["C17", "C19", "C13"], detail=repr(p.value)[:120], witness=cid))
+    return worst_per_name(obs)
